@@ -121,6 +121,16 @@ def run(chk):
     wp = params(w)
     ok = (f"if{wp[1]}:{wp[3]}={wp[3]}[~_np.isnan({wp[3]})]" in src.replace("\n", "") and f"return{wp[2]}({wp[3]})if{wp[3]}.size>0else_np.nan" in src)
     chk.ob("C12-R3", "series._conversions._aggregate_within_data", ok, "missing values are dropped only when discard_missing; empty group -> NaN", m.loc(w))
+    # select: positions inside the one-dimensional group; a tuple used as an index addresses axes instead
+    sel_p, grp_p = wp[0], wp[3]
+    subs = [n for n in walk_no_nested(w) if isinstance(n, ast.Subscript) and unparse(n.value) == grp_p and unparse(n.slice) == sel_p]
+    if subs:
+        conv = [n for n in walk_no_nested(w) if isinstance(n, ast.Assign) and unparse(n.targets[0]) == sel_p and n.lineno <= subs[0].lineno]
+        how = dotted(conv[-1].value.func) if conv and isinstance(conv[-1].value, ast.Call) else None
+        ok = False if how == "tuple" else True if how in (None, "list", "_np.array", "_np.asarray", "sorted") else None
+        chk.ob("C12-R3", "series._conversions._aggregate_within_data[select]", ok,
+               f"{grp_p}[{sel_p}] with {sel_p} = {how or 'the list given'}(...): " + ("a tuple indexes one element per AXIS, so any selection on the 1-D group raises"
+                                                                               if ok is False else "a sequence index selects positions within the group"), m.loc(subs[0]))
     a = m.func("Inlay.aggregate")
     chk.saw(m, "Inlay.aggregate")
     src = unparse(a).replace(" ", "")
